@@ -212,7 +212,7 @@ def canon_ti(enc):
 
 # ------------------------------------------------------------------------------------------------ one history
 class Observed:
-    __slots__ = ('err', 'ids', 'keys', 'ti', 'fams', 'calls')
+    __slots__ = ('err', 'ids', 'keys', 'ti', 'fams', 'calls', 'opcalls')
 
 
 def snapshot(prep, reg):
@@ -257,6 +257,7 @@ def run_history(prep, ops, fail, count=lambda k: None):
         if ti_set:
             claimed.setdefault('target_info', 'E')
         err = None
+        del prep.log[:]
         try:
             if op[0] == 'r':
                 reg.register(prep.objs[op[1]])
@@ -266,12 +267,17 @@ def run_history(prep, ops, fail, count=lambda k: None):
                 reg.set_target_info(copy.copy(op[1]))
         except Exception as e:  # noqa
             err = type(e).__name__
+        opcalls = list(prep.log)        # collect() calls made by the call itself
         after = snapshot(prep, reg)
         count('op-%s-%s' % (op[0], err or 'ok'))
 
         def bad(sig, what):
             fail(sig, 'step %d %s: %s' % (step, enc_op(op), what), step)
 
+        # ---- the call itself invokes collect() only to auto-describe the registering collector, once
+        want_calls = [op[1]] if (op[0] == 'r' and prep.desc[op[1]] is None and prep.ad) else []
+        if opcalls != want_calls:
+            bad('C06:register-calls-collect', 'the call invoked collect() on %r, expected %r' % (opcalls, want_calls))
         if not tainted:
             # ---- a raising register / set_target_info is a frame
             if err is not None and op[0] in 'rt' and after != before:
@@ -359,6 +365,7 @@ def run_history(prep, ops, fail, count=lambda k: None):
         o.ti = canon_ti(enc_labels(ti))
         o.fams = after[0]
         o.calls = after[1]
+        o.opcalls = opcalls
         obs.append(o)
         before = after
     return obs, reg
@@ -374,7 +381,7 @@ def compare_steps(reply, obs):
         return 'driver returned %d steps for %d calls' % (len(steps), len(obs))
     for i, (st, o) in enumerate(zip(steps, obs)):
         f = st.split('!')
-        m_err, m_ids, m_keys, m_ti, m_fams, m_calls = f
+        m_err, m_ids, m_keys, m_ti, m_fams, m_calls, m_op = f
         if m_err != o.err:
             return 'step %d: model %s, implementation %s' % (i, m_err, o.err)
         ids = [] if m_ids == '.' else [int(x) for x in m_ids.split(',')]
@@ -391,6 +398,9 @@ def compare_steps(reply, obs):
         calls = [] if m_calls == '.' else [int(x) for x in m_calls.split(',')]
         if calls != o.calls:
             return 'step %d: collect() call order model %r, implementation %r' % (i, calls, o.calls)
+        opc = [] if m_op == '.' else [int(x) for x in m_op.split(',')]
+        if opc != o.opcalls:
+            return 'step %d: collect() calls made by the call itself model %r, implementation %r' % (i, opc, o.opcalls)
     return None
 
 
